@@ -15,7 +15,7 @@ pub struct OutputOptions<'a> { pub format: &'a str }
 #[verifier::external_body] pub fn drop_stmt_value<T>(v: T) { unimplemented!() }
 // R21 target: a lock guard that is not bound to a named variable is dropped at the end of its statement
 #[verifier::external_body] pub fn lock_dropped(Tracked(w): Tracked<&mut World>)
-    ensures !final(w).lock_held, final(w).effects == old(w).effects { unimplemented!() }
+    ensures !final(w).lock_held, final(w).effects == old(w).effects, final(w).out_deleted == old(w).out_deleted { unimplemented!() }
 pub mod core {
     use vstd::prelude::*;
     pub(crate) use super::Config;
@@ -28,7 +28,7 @@ pub mod core {
             // ASSUMED (core/server.rs + the OS): acquire binds an exclusive listening socket; Ok means this process now holds the lock
             // and holds it for as long as the returned guard lives; Err means it does not, and nothing else has happened
             #[verifier::external_body] pub async fn acquire(self, Tracked(w): Tracked<&mut World>) -> (r: Result<LockServer, super::super::server::ServerError>)
-                ensures r is Ok ==> final(w).lock_held, r is Err ==> final(w).lock_held == old(w).lock_held, final(w).effects == old(w).effects { unimplemented!() }
+                ensures r is Ok ==> final(w).lock_held, r is Err ==> final(w).lock_held == old(w).lock_held, final(w).effects == old(w).effects, final(w).out_deleted == old(w).out_deleted { unimplemented!() }
         }
     }
 }
@@ -55,9 +55,11 @@ pub mod app {
         pub struct OutDeleteInput { pub x: u8 }
         pub struct OutDeleteOutput { pub x: u8 }
         impl OutDeleteInput { #[verifier::external_body] pub fn try_from(m: &ArgMatches) -> (r: Result<OutDeleteInput, MonorailError>) { unimplemented!() } }
-        #[verifier::external_body] pub fn out_delete(out_dir: &String, input: &OutDeleteInput, Tracked(w): Tracked<&mut World>) -> (r: Result<OutDeleteOutput, MonorailError>)
+        // ASSUMED (repo function app/out.rs): measures the directory and, with --all, removes everything below it.  The directory it is
+        // handed is resolved by the OS against the process's working directory unless it is absolute; `out_deleted` records it as given
+        #[verifier::external_body] pub fn out_delete<P: PathLike + ?Sized>(out_dir: &P, input: &OutDeleteInput, Tracked(w): Tracked<&mut World>) -> (r: Result<OutDeleteOutput, MonorailError>)
             requires old(w).lock_held,
-            ensures final(w).lock_held == old(w).lock_held, final(w).effects == old(w).effects + 1 { unimplemented!() }
+            ensures final(w).lock_held == old(w).lock_held, final(w).effects == old(w).effects + 1, final(w).out_deleted == old(w).out_deleted.insert(out_dir.pview()) { unimplemented!() }
     }
     pub mod checkpoint {
         use vstd::prelude::*;
@@ -123,18 +125,23 @@ async fn handle_run<'a>(
 }
 //!end
 
-//!fn src/api/cli.rs handle_out_delete rules=R1,R10,R15,R21 props=C14
+//!fn src/api/cli.rs handle_out_delete rules=R1,R10,R15,R21 props=C14,C19
 async fn handle_out_delete<'a>(
     config: &'a core::Config,
     matches: &'a ArgMatches,
     output_options: &OutputOptions<'a>,
+    work_path: &'a path::Path,
  Tracked(w): Tracked<&mut World>) -> ⟦(res: ⟧Result<i32, MonorailError>⟦)⟧
 @    ensures final(w).effects > old(w).effects ==> final(w).lock_held, final(w).effects <= old(w).effects + 1, // [C14]
+@        // C19: the directory `out delete` measures and empties is the output directory of the configuration in use - <directory of the
+@        // configuration file>/<out_dir>, where its checkpoint, run pointer and results live - wherever the command was started from
+@        forall|d: Seq<char>| final(w).out_deleted.contains(d) && !old(w).out_deleted.contains(d) ==> d == path_join(work_path@, config.out_dir@), // [C19]
 {
     let _guard =
         core::server::LockServer::new(config.server.lock.clone()).acquire(Tracked(w)).await?;
     let i = app::out::OutDeleteInput::try_from(matches)?;
-    let res = app::out::out_delete(&config.out_dir, &i, Tracked(w));
+    // like every other command, resolve the output directory against the configuration's directory, not the process's working directory
+    let res = app::out::out_delete(&work_path.join(&config.out_dir), &i, Tracked(w));
     write_result(&res, output_options)?;
     Ok(get_code(res.is_err()))
 }
